@@ -42,6 +42,8 @@ def cases(draw, tier):
     nd = draw(st.sampled_from([1, 2, 2, 3]))
     mx = 12 if tier == 'quick' else 24
     tys = [draw(gp.types(max_numel=mx if nd < 3 else 6, depth=2)) for _ in range(nd)]
+    if nd >= 2 and draw(st.integers(0, 3)) == 0:
+        tys = [tys[0]] * nd      # all dimensions of one type: square tensors, diagonals, well-typed transposes
     nfloat = draw(st.integers(2, 3))
     vals = gp.VALUES_FLOAT + ((-math.inf, math.inf) if draw(st.booleans()) else ())
     floats = [draw(gp.tensor_specs(tys, values=vals)) for _ in range(nfloat)]
@@ -296,7 +298,9 @@ def run_step(ctx, step, fl, bo, case, pool):
         src = [A, B][n1 % 2]
         cmpop = ['gt', 'le', 'eq'][n2 % 3]
         s_pt, s_d = src[0], src[1]
-        if n3 % 2 == 0 and s_d.ndim >= 2 and s_d.shape[0] == s_d.shape[-1]:
+        tys = case['types']
+        if n3 % 2 == 0 and s_d.ndim >= 2 and s_d.ndim == len(tys) and tys[0] == tys[-1] and \
+           tuple(s_d.shape) == tuple(gp.numel(T) for T in tys):
             # condition computed from the transposed branch: shares the branch's axes in other positions
             s_pt = lib('T', lambda: s_pt.T) if s_d.ndim == 2 else lib('transpose', s_pt.transpose, 0, s_d.ndim - 1)
             s_d = s_d.transpose(0, s_d.ndim - 1)
